@@ -93,3 +93,23 @@ Theorem C09_postings_write_read : forall ft cs, 0 < cs -> forall total, (0 < tot
    decode_hits ft cs fch lch (map fst hits) (None, [], [])))) = Opt.mapopt (spec_hit ft) hits.
 Proof. exact postings_write_read. Qed.
 Print Assumptions C09_postings_write_read.
+
+(* one field's whole dictionary, writer and reader composed: the frozen reader (Layout.dict_at)
+   maps every term of the FST to its postings - a single-hit value decodes to its one posting, a
+   general value to the hits whose freq/norm and location streams the chunked coders wrote and whose
+   documents are in the bitmap - for any number of terms and postings, every chunk mode and
+   document count for which getChunkSize's rule gives a chunk size.  vellum and roaring are Section
+   hypotheses (decode . encode = id). *)
+Require ZV.DictProof.
+Theorem C09_dictionary_write_read :
+  forall (fst_enc : list (Spec.str * N) -> Bytes.bytes) (dec_fst : Bytes.bytes -> option (list (Spec.str * N))),
+  (forall kvs, dec_fst (fst_enc kvs) = Some kvs) ->
+  forall (roar_enc : list N -> Bytes.bytes) (dec_roar : Bytes.bytes -> option (list N)),
+  (forall l, dec_roar (roar_enc l) = Some l) ->
+  forall ft mode ndocs file dictLoc (kvs : list (Spec.str * N)) (want : list (list Spec.hit)) rest,
+  dictLoc <> 0%N -> Bytes.u64 (LayoutProof.nlenb (fst_enc kvs)) ->
+  Layout.at_off file dictLoc = Some (Bytes.uv (LayoutProof.nlenb (fst_enc kvs)) ++ fst_enc kvs ++ rest) ->
+  List.Forall2 (fun kv hs => DictProof.entry_ok roar_enc ft mode ndocs file (snd kv) (Some hs)) kvs want ->
+  Layout.dict_at dec_fst dec_roar file ft mode ndocs dictLoc = Some (List.combine (List.map fst kvs) want).
+Proof. exact DictProof.dict_at_roundtrip. Qed.
+Print Assumptions C09_dictionary_write_read.
